@@ -147,12 +147,12 @@ def segment_at(unit, line):
     return None
 
 
-def run_verus(unit, rlimit=None, timeout=900, extra=None):
+def run_verus(unit, rlimit=None, timeout=900, extra=None, multiple_errors='5'):
     cmd = ['verus', '--edition', '2024', '--triggers-mode', 'silent', '--error-format=json',
            '--output-json', '--time', '--num-threads', os.environ.get('VERIF_VERUS_THREADS', '8'),
            # Verus stops after 2 failed obligations per function by default: the two known findings in eval_node would hide
            # any further failure of that function
-           '--multiple-errors', '5']
+           '--multiple-errors', str(multiple_errors)]
     if rlimit:
         cmd += ['--rlimit', str(rlimit)]
     if extra:
